@@ -122,7 +122,15 @@ def build_hedger_price(torch, nn, c):
             lin.weight.copy_(torch.tensor([[float(x) for x in r] for r in c["w"]], dtype=dt))
             lin.bias.copy_(torch.tensor([float(x) for x in c["b"]], dtype=dt))
         model = torch.nn.Sequential(lin, torch.nn.ReLU()) if c["model"] == "relu" else lin
-    return Hedger(model, inputs, criterion=crit), deriv, hedge, stock, others
+    cls = Hedger
+    if c.get("subclass"):
+        fee = float(c["subclass"]["fee"])
+
+        class FeeHedger(Hedger):        # a user subclass that defines its own hedge portfolio: the library's one minus a flat fee
+            def compute_portfolio(self, derivative, hedge=None):
+                return super().compute_portfolio(derivative, hedge) - fee
+        cls = FeeHedger
+    return cls(model, inputs, criterion=crit), deriv, hedge, stock, others
 
 
 def hedger_price_req(c, k, dt_, und_batches, other_rows):
@@ -154,6 +162,10 @@ def hedger_price_req(c, k, dt_, und_batches, other_rows):
         batches.append(paths)
     payoff = {"kind": "lookback" if c["deriv"] == "lookback" else "european", "call": c["deriv"] != "european_put", "strike": num(c["strike"])}
     adds = [[name, [cl[0]] + nums(cl[1:])] for name, cl in c["adds"]]
+    if c.get("subclass"):
+        # the subclass's hedge portfolio is the library's minus a flat fee: (portfolio - fee) - payoff is the P&L of the library's hedger
+        # against the payoff with a last clause "+ fee"
+        adds.append(["hedger subclass fee", ["affine"] + nums([F(1), c["subclass"]["fee"]])])
     return {"op": "hedger_price", "carrier": "rat" if rat else "float",
             "criterion": ["es", k] if rat else [c["which"], num(c["param"])],
             "features": feats, "model": model, "payoff": payoff, "adds": adds, "first": True, "batches": batches}
@@ -166,6 +178,8 @@ def _small_hp(c):
     d["clauses"] = [[cl[0]] + enc_rat(cl[1:]) for cl in c["clauses"]]
     if c.get("reregistered"):
         d["add_clause_calls"] = [[name, [cl[0]] + enc_rat(cl[1:])] for name, cl in c["adds"]]
+    if c.get("subclass"):
+        d["hedger_subclass"] = "compute_portfolio = Hedger.compute_portfolio - (" + rat_str(c["subclass"]["fee"]) + ")"
     return d
 
 
@@ -179,9 +193,20 @@ def hedger_price_section(ctx, torch, nn):
     reqs, metas = [], []
     n_gen = 48 if ctx.tier == "quick" else 480
     n_rereg = 12 if ctx.tier == "quick" else 80
-    for it in range(n_gen + n_rereg):
+    n_sub = 12 if ctx.tier == "quick" else 80
+    for it in range(n_gen + n_rereg + n_sub):
         c = gen_hedger_price(g, ctx.tier)
-        if it >= n_gen:         # clauses re-registered under an existing name before pricing
+        if it >= n_gen + n_rereg:
+            # a user SUBCLASS of Hedger that overrides compute_portfolio (the library's portfolio minus a flat fee): price and loss are
+            # defined through the subclass's hedge portfolio; the model sees the fee as a last "+ fee" clause of the payoff
+            c["subclass"] = {"fee": g.choice([F(1, 4), F(-1, 8), F(1, 2), F(3, 64), F(-1)])}
+            if it - n_gen - n_rereg < 3:        # every criterion, with a module that can be evaluated, on every run
+                c["which"] = ["es", "erm", "eloss"][it - n_gen - n_rereg]
+                c["param"] = 0.5 if c["which"] == "es" else 1.0
+                c["log"] = c["log"] and c["which"] != "es"
+                if c["model"] == "badwidth":
+                    c["model"], c["w"], c["b"] = "linear", c["w"][:-1], c["b"][:-1]
+        elif it >= n_gen:         # clauses re-registered under an existing name before pricing
             c["adds"] = gen_reregistered(g, it - n_gen)
             c["reregistered"] = True
             reg = {}
@@ -238,20 +263,22 @@ def hedger_price_section(ctx, torch, nn):
                     if payoff_bad is None and not torch.equal(deriv.payoff(), z):
                         payoff_bad = {"payoff()": deriv.payoff().tolist(), "payoff_fn() through the clauses in force": z.tolist()}
         generic_ok = True
+        sub = "subclass:" if c.get("subclass") else ""
+        sub_txt = " (a user subclass of Hedger that overrides compute_portfolio)" if sub else ""
         if st_p == "ok" and st_l == "ok" and c["which"] == "erm" and not abs(float(price) - float(loss)) <= 1e-9 * max(1.0, abs(float(price))):
             # price and loss were asked for with the SAME hedge argument under the same seed
             ctx.fail("for the entropic risk measure Hedger.price differs from Hedger.compute_loss on the same simulated paths with the same hedging "
-                     "instruments", small, key="price:erm:scenario:loss", detail={"price": float(price), "loss": float(loss)})
+                     "instruments" + sub_txt, small, key=f"price:erm:{sub}scenario:loss", detail={"price": float(price), "loss": float(loss)})
         if (st_p == "ok") != (st_l == "ok"):
             ctx.fail("Hedger.price and Hedger.compute_loss, asked with the same hedging instruments under the same seed, do not both succeed / both fail",
-                     small, key=f"price:{c['which']}:scenario:loss-error", detail={"price": str(price)[:200], "loss": str(loss)[:200]})
+                     small, key=f"price:{c['which']}:{sub}scenario:loss-error", detail={"price": str(price)[:200], "loss": str(loss)[:200]})
         if st_p == "ok" and len(by_hand_lib) == nt:
             exp = sum(by_hand_lib) / nt
             if not abs(float(price) - exp) <= 1e-9 * max(1.0, abs(exp)):
                 generic_ok = False
-                ctx.fail("Hedger.price differs from minus the cash amount of (Hedger.compute_portfolio - payoff) evaluated afterwards on the same "
-                         "simulated paths (several hedging instruments, prev_hedge / ReLU / Naked modules, clauses)", small,
-                         key=f"price:{c['which']}:scenario:value", detail={"price": float(price), "expected": exp})
+                ctx.fail("Hedger.price differs from minus the cash amount of (the hedger's compute_portfolio - payoff) evaluated afterwards on the same "
+                         "simulated paths (several hedging instruments, prev_hedge / ReLU / Naked modules, clauses)" + sub_txt, small,
+                         key=f"price:{c['which']}:{sub}scenario:value", detail={"price": float(price), "expected": exp})
         if c.get("reregistered") and st_p == "ok":
             if payoff_bad is not None:
                 ctx.fail("after a clause was registered again under an existing name, payoff() is not payoff_fn() passed through the clauses in "
@@ -266,7 +293,8 @@ def hedger_price_section(ctx, torch, nn):
         for i, s in others.items():
             if tensor_to_fracs(s.spot) != other_rows[i]:
                 raise InternalError("a hedging instrument that the derivative does not simulate changed its paths")
-        ctx.case(small, c["model"] != "badwidth", tag="hedger_price:reregistered_clause" if c.get("reregistered") else "hedger_price")
+        ctx.case(small, c["model"] != "badwidth", tag="hedger_price:reregistered_clause" if c.get("reregistered") else
+                 "hedger_price:subclass" if c.get("subclass") else "hedger_price")
         ctx.traces += 1
         for kk in ("which", "model", "deriv"):
             ctx.stats[f"hedger_price:{kk}={c[kk]}"] += 1
@@ -310,6 +338,157 @@ def hedger_price_section(ctx, torch, nn):
                           "per_batch_losses": [show(x) for x in mo["losses"]]},
                          note="composed model hedgerPriceN / hedgerLossN (paths -> hedgerPL -> criterion / -cash -> ensemble mean) on the buffers "
                               "simulated under the scenario's seed")
+
+
+# ---- user SUBCLASSES of Hedger ---------------------------------------------------------------------------------------------------
+
+_SUB_KINDS = ["financed", "rebate", "own-book", "net-pl", "both", "capped"]
+
+
+def make_hedger_subclass(torch, Hedger, kind, par):
+    """a user subclass of Hedger of the given kind, and the function (spot (N, T), units (N, T), cost rate, library wealth (N)) -> (N) that
+    writes out the terminal value of ITS hedge portfolio for one hedging instrument.
+    financed: compute_portfolio = the library's minus the financing of the position held (rate * dt * sum_t |units_t| spot_t)
+    rebate:   compute_portfolio = the library's plus a flat amount
+    own-book: compute_portfolio written from scratch (no super()): trading gains minus a flat charge per unit of turnover
+    net-pl:   compute_pl only (a performance fee on the P&L reported by compute_pl); the hedge portfolio is the library's
+    both:     compute_portfolio (minus a flat fee) and compute_pl (through that portfolio) overridden consistently
+    capped:   compute_hedge overridden (position limits); the portfolio is the library's for the capped position"""
+    if kind == "financed":
+        class Financed(Hedger):
+            def compute_portfolio(self, derivative, hedge=None):
+                portfolio = super().compute_portfolio(derivative, hedge)
+                hedge = hedge or [derivative.ul()]
+                spot = torch.stack([h.spot for h in hedge], dim=1)
+                unit = self.compute_hedge(derivative, hedge=hedge)
+                return portfolio - par * derivative.ul().dt * (unit.abs() * spot).sum(dim=(-2, -1))
+        return Financed, lambda s_, u_, cost, w, dt_: w - par * dt_ * (u_.abs() * s_).sum(-1)
+    if kind == "rebate":
+        class Rebate(Hedger):
+            def compute_portfolio(self, derivative, hedge=None):
+                return super().compute_portfolio(derivative, hedge) + par
+        return Rebate, lambda s_, u_, cost, w, dt_: w + par
+    if kind == "own-book":
+        class OwnBook(Hedger):
+            def compute_portfolio(self, derivative, hedge=None):
+                hedge = hedge or [derivative.ul()]
+                spot = torch.stack([h.spot for h in hedge], dim=1)
+                unit = self.compute_hedge(derivative, hedge=hedge)
+                gains = (unit[..., :-1] * spot.diff(dim=-1)).sum(dim=(-2, -1))
+                turnover = unit[..., 0].abs().sum(-1) + unit.diff(dim=-1).abs().sum(dim=(-2, -1))
+                return gains - par * turnover
+        return OwnBook, lambda s_, u_, cost, w, dt_: (u_[:, :-1] * (s_[:, 1:] - s_[:, :-1])).sum(-1) - par * (u_[:, 0].abs() + (u_[:, 1:] - u_[:, :-1]).abs().sum(-1))
+    if kind == "net-pl":
+        class NetPL(Hedger):
+            def compute_pl(self, derivative, hedge=None):
+                return (1.0 - par) * super().compute_pl(derivative, hedge) - par
+        return NetPL, lambda s_, u_, cost, w, dt_: w
+    if kind == "both":
+        class Both(Hedger):
+            def compute_portfolio(self, derivative, hedge=None):
+                return super().compute_portfolio(derivative, hedge) - par
+
+            def compute_pl(self, derivative, hedge=None):
+                return self.compute_portfolio(derivative, hedge) - derivative.payoff()
+        return Both, lambda s_, u_, cost, w, dt_: w - par
+
+    class Capped(Hedger):
+        def compute_hedge(self, derivative, hedge=None):
+            return super().compute_hedge(derivative, hedge=hedge).clamp(min=-par, max=par)
+    return Capped, lambda s_, u_, cost, w, dt_: w
+
+
+def hedger_subclass_section(ctx, torch, nn):
+    """Hedger.price / Hedger.compute_loss of user SUBCLASSES of Hedger.  compute_portfolio is documented as the terminal value of the hedging
+    portfolio, so a subclass that overrides it (financing charge, rebate, its own book-keeping), or that overrides compute_hedge, defines the
+    hedge portfolio the statement speaks of: the price is minus the cash amount of (self.compute_portfolio - payoff) on the simulated paths
+    (also with the subclass's portfolio written out by the harness), a constant added to the payoff raises it by that constant, and for the
+    entropic risk measure it equals compute_loss.  A subclass that overrides compute_pl only has the library's hedge portfolio: the same three
+    statements hold with that portfolio.  Every (kind of subclass, criterion) pair runs on every tier."""
+    from pfhedge.instruments import BrownianStock, EuropeanOption, LookbackOption
+    from pfhedge.nn import Hedger
+    g = ctx.gen
+    dt = torch.float64
+    todo = [(kind, which) for kind in _SUB_KINDS for which in ("erm", "es", "eloss", "qcvar", "iso")]
+    for _ in range(6 if ctx.tier == "quick" else 200):
+        todo.append((g.choice(_SUB_KINDS), g.choice(["erm", "erm", "es", "eloss", "qcvar", "iso"])))
+    for kind, which in todo:
+        crit = {"erm": nn.EntropicRiskMeasure(g.choice([0.5, 1.0, 2.0])), "es": nn.ExpectedShortfall(g.choice([0.1, 0.5, 1.0])),
+                "eloss": nn.EntropicLoss(g.choice([1.0, 1.5])), "qcvar": nn.QuadraticCVaR(g.choice([1.0, 10.0])), "iso": nn.IsoelasticLoss(0.5)}[which]
+        cost_rate = g.choice([0.0, 1e-3, 2.0 ** -9, 2.0 ** -6])
+        stock = BrownianStock(cost=cost_rate, sigma=0.3, dtype=dt)
+        deriv = g.choice([EuropeanOption, LookbackOption])(stock, strike=g.choice([0.9, 1.0]), maturity=g.choice([3, 5]) / 250)
+        par = {"financed": g.choice([0.5, 2.0, 0.05]), "rebate": g.choice([0.25, -0.5, 0.125]), "own-book": g.choice([2.0 ** -6, 0.0, 1e-2]),
+               "net-pl": g.choice([0.25, 0.5]), "both": g.choice([0.25, -0.125, 1.0]), "capped": g.choice([0.25, 0.5, 0.05])}[kind]
+        cls, written_out = make_hedger_subclass(torch, Hedger, kind, par)
+        model_kind = g.choice(["linear", "bs"])
+        if model_kind == "bs":
+            bs = nn.BlackScholes(deriv).to(dt)
+            hedger = cls(bs, bs.inputs(), criterion=crit)
+        else:
+            lin = torch.nn.Linear(2, 1, dtype=dt)
+            with torch.no_grad():
+                lin.weight.copy_(torch.tensor([[g.choice([0.5, -0.5, 1.0]), 0.25]], dtype=dt))
+                lin.bias.copy_(torch.tensor([0.1], dtype=dt))
+            hedger = cls(lin, ["moneyness", "time_to_maturity"], criterion=crit)
+        n_paths, n_times = g.choice([1, 5, 50]), g.choice([1, 1, 2, 3])
+        hedge = g.choice([None, [stock]])
+        seed = g.randint(0, 10 ** 6)
+        k_shift = g.choice([0.25, 1.0, -0.5])
+        case = {"hedger_subclass": kind, "subclass_parameter": par, "criterion": which, "criterion_parameter": repr(crit), "n_paths": n_paths,
+                "n_times": n_times, "seed": seed, "derivative": type(deriv).__name__, "strike": deriv.strike, "maturity": deriv.maturity,
+                "cost": cost_rate, "model": model_kind, "hedge_argument": "None" if hedge is None else "[underlier]", "k": k_shift}
+        if which == "iso":
+            deriv.add_clause("pos", lambda d, p: p - 3.0)          # keep portfolio - payoff positive for the isoelastic utility
+        ctx.case(case, True, tag=f"price:subclass:{kind}")
+        ctx.stats[f"price:subclass:{which}"] += 1
+        ctx.traces += 1
+        torch.manual_seed(seed)
+        st, price, _ = call_impl(hedger.price, deriv, hedge=hedge, n_paths=n_paths, n_times=n_times)
+        torch.manual_seed(seed)
+        stl, loss, _ = call_impl(hedger.compute_loss, deriv, hedge=hedge, n_paths=n_paths, n_times=n_times, enable_grad=False)
+        if st != "ok" or stl != "ok":
+            ctx.fail("Hedger.price / Hedger.compute_loss of a user subclass of Hedger raised", case, key=f"price:{which}:subclass:error",
+                     detail=[price if st != "ok" else "ok", loss if stl != "ok" else "ok"])
+            continue
+        # the same paths, by hand
+        torch.manual_seed(seed)
+        vals, vals_w, losses = [], [], []
+        with torch.no_grad():
+            for _ in range(n_times):
+                deriv.simulate(n_paths=n_paths)
+                z = deriv.payoff()
+                pf = hedger.compute_portfolio(deriv, hedge)
+                vals.append(float(-crit.cash(pf - z)))
+                losses.append(float(crit(pf - z)))
+                # the library's wealth written out (gains of the hedge held minus proportional costs at the instrument's rate), then the
+                # subclass's own terms on top of it
+                s_, u_ = stock.spot, hedger.compute_hedge(deriv, hedge)[:, 0, :]
+                wealth = torch.zeros(n_paths, dtype=dt) - stock.cost * s_[:, 0] * u_[:, 0].abs()
+                for t_ in range(s_.size(1) - 1):
+                    wealth = wealth + u_[:, t_] * (s_[:, t_ + 1] - s_[:, t_]) - stock.cost * s_[:, t_ + 1] * (u_[:, t_ + 1] - u_[:, t_]).abs()
+                vals_w.append(float(-crit.cash(written_out(s_, u_, stock.cost, wealth, stock.dt) - z)))
+        exp, exp_w, exp_l = sum(vals) / n_times, sum(vals_w) / n_times, sum(losses) / n_times
+        tolw = 1e-9 if which in ("erm", "es", "eloss") else 2e-5
+        if abs(float(price) - exp) > 1e-9 * max(1.0, abs(exp)):
+            ctx.fail("the price quoted by a user subclass of Hedger differs from minus the cash amount of (its compute_portfolio - payoff) on the "
+                     "simulated paths", case, key=f"price:{which}:subclass:value", detail={"price": float(price), "expected": exp})
+        if abs(float(price) - exp_w) > tolw * max(1.0, abs(exp_w)):
+            ctx.fail("the price quoted by a user subclass of Hedger differs from minus the cash amount of (its hedge portfolio written out - payoff) "
+                     "on the simulated paths", case, key=f"price:{which}:subclass:written-out", detail={"price": float(price), "expected": exp_w})
+        if abs(float(loss) - exp_l) > 1e-9 * max(1.0, abs(exp_l)):
+            ctx.fail("compute_loss of a user subclass of Hedger differs from the criterion of (its compute_portfolio - payoff) on the simulated paths",
+                     case, key=f"loss:{which}:subclass:value", detail={"loss": float(loss), "expected": exp_l})
+        if which == "erm" and abs(float(price) - float(loss)) > 1e-9 * max(1.0, abs(exp)):
+            ctx.fail("for the entropic risk measure the price quoted by a user subclass of Hedger differs from its compute_loss on the same paths",
+                     case, key="price:erm:subclass:loss", detail={"price": float(price), "loss": float(loss)})
+        if which != "iso":
+            deriv.add_clause("shift", lambda d, p, k=k_shift: p + k)
+            torch.manual_seed(seed)
+            st2, price2, _ = call_impl(hedger.price, deriv, hedge=hedge, n_paths=n_paths, n_times=n_times)
+            if st2 != "ok" or abs(float(price2) - (float(price) + k_shift)) > tolw * max(1.0, abs(exp)):
+                ctx.fail("adding a constant k to the payoff does not raise the price quoted by a user subclass of Hedger by exactly k", case,
+                         key=f"price:{which}:subclass:shift", detail={"price": float(price), "price_shifted": float(price2) if st2 == "ok" else price2})
 
 
 def check(ctx):
@@ -576,6 +755,7 @@ def check(ctx):
             ctx.fail("for the entropic risk measure the price differs from the loss (after a clause was registered again)", rcase,
                      key="price:erm:reregistered-clause:loss", detail={"price": float(price3), "loss": float(loss3)})
     hedger_price_section(ctx, torch, nn)
+    hedger_subclass_section(ctx, torch, nn)
     return ctx.finish(
         rule="criteria {EntropicRiskMeasure, EntropicLoss, IsoelasticLoss, ExpectedShortfall, QuadraticCVaR, user subclass and EntropicLoss forced "
              "through the default search} on (N,) and (N,M) samples incl. constants and ties, targets; Hedger.price with frozen seeds, n_times in "
@@ -584,4 +764,7 @@ def check(ctx):
              "Hedger.price and Hedger.compute_loss against the composed model hedgerPriceN / hedgerLossN (op hedger_price): H in 1..3 with primary / listed / "
              "self-listed hedges and dyadic cost rates, linear / ReLU / prev_hedge / Naked modules, cap / floor / affine clauses, n_times 1..3, "
              "expected shortfall exact on the rational values of the simulated float64 buffers, entropic criteria on the IEEE replica; "
+             "user subclasses of Hedger (compute_portfolio with a financing charge / rebate / own book-keeping, compute_pl only, both, compute_hedge "
+             "with position limits; a flat fee in the composed-model scenarios, sent to op hedger_price as a last clause) x every criterion: price "
+             "= -cash(its portfolio - payoff), also written out, payoff shift, ERM price = loss; "
              "every case non-trivial except modules of the wrong width (error agreement); distinct = sha1 of canonical case")
